@@ -266,8 +266,8 @@ func c02XML(src []byte) *c02Fail {
 
 var c02CSSFrags = []string{"a", "-b", "--c", "\\66 ", "1", "1.5", "1e3", "-2.5e-3px", "50%", "#f0f", "@media", "url(x)", "url( 'y' )", "url(a b)", "URL(", "f(", "\"s\"", "'t\\'u'", "\"v\n", "/* c */", "/*", "<!--", "-->", " ", "\t\n", ":", ";", ",", "{", "}", "(", ")", "[", "]", "~=", "|=", "^=", "$=", "*=", "||", "u+1f??", "U+0-7F", "+", "-", ".", "!important", "\\", "é", "\xF0", "\x00"}
 var c02JSFrags = []string{"a", "$b", "\\u0061", "é", "#p", "1", "1.5e3", "0x1F", "0b1n", "1_0", ".5", "1.", "'s'", "\"t\\\"\"", "'u\\\n'", "`v`", "`w${", "}x${", "}y`", "/", "/=", "//c\n", "/*d*/", "/*e\n*/", "<!--f\n", "-->g\n", " ", "\n", " ", "\t", "+", "++", "+=", "=>", "===", "!==", "**=", ">>>=", "??=", "?.", "?.5", "...", "(", ")", "[", "]", "{", "}", ";", ",", ":", "?", "~", "function", "await", "of", "\x00", "\xF0"}
-var c02HTMLFrags = []string{"text", " ", "\n", "&amp;", "<a", "<A", "<DiV", " b", " B=c", " d='e'", " F=\"G\"", " h = i", ">", "/>", "</a>", "</A >", "</a X=Y>", "<!--c-->", "<!-- ", "-->", "<!DOCTYPE html>", "<![CDATA[x]]>", "<script>", "</script>", "</SCRIPT>", "<!--", "<script", "x<y", "<style>", "</style>", "<textarea>", "</textarea>", "<title>", "</title>", "<plaintext>", "<svg>", "</svg>", "<math>", "</math>", "<br/>", "<", ">", "=", "'", "\"", "/", "{{", "}}", "{{ \"}}\" }}", "<%", "%>", "<?", "?>", "\x00", "é"}
-var c02XMLFrags = []string{"text", " ", "\n", "\t", "&amp;", "<a", "<b:c", " d='e'", " f=\"g\"", " h=\"i\nj\tk\rl\"", " m", " =", ">", "/>", "</a>", "</a >", "<!--c-->", "<!--", "-->", "<?xml version=\"1.0\"?>", "<?pi x?>", "?>", "<!DOCTYPE a>", "<!DOCTYPE a [<!ENTITY e \"x>y\">]>", "<![CDATA[x]]>", "]]>", "<", ">", "'", "\"", "/", "\x00", "é"}
+var c02HTMLFrags = []string{"text", " ", "\n", "&amp;", "<a", "<A", "<DiV", " b", " B=c", " d='e'", " F=\"G\"", " h = i", ">", "/>", "</a>", "</A >", "</a X=Y>", "<!--c-->", "<!-- ", "-->", "<!DOCTYPE html>", "<![CDATA[x]]>", "<script>", "</script>", "</SCRIPT>", "<!--", "<script", "x<y", "i<LENGTH;", "'</SCRIPT>'", "<SCRIPT", "</Script ", "<STYLES", "</TITLEx", "<style>", "</style>", "<textarea>", "</textarea>", "<title>", "</title>", "<plaintext>", "<svg>", "</svg>", "<math>", "</math>", "<br/>", "<", ">", "=", "'", "\"", "/", "{{", "}}", "{{ \"}}\" }}", "<%", "%>", "<?", "?>", "\x00", "é"}
+var c02XMLFrags = []string{"text", " ", "\n", "\t", "&amp;", "<a", "<b:c", " d='e'", " f=\"g\"", " h=\"i\nj\tk\rl\"", " m", " =", " n\n=\t\"o\"", " p =\n'q'", " r\t=\r\n\"s\tt\"", ">", "/>", "</a>", "</a >", "<!--c-->", "<!--", "-->", "<?xml version=\"1.0\"?>", "<?pi x?>", "?>", "<!DOCTYPE a>", "<!DOCTYPE a [<!ENTITY e \"x>y\">]>", "<![CDATA[x]]>", "]]>", "<", ">", "'", "\"", "/", "\x00", "é"}
 
 func c02Build(r *Rng, frags []string, n int) []byte {
 	var b []byte
